@@ -381,9 +381,18 @@ func newWorld(tr *vh.Trace, np, ns int, stale bool) *world {
 			keys = append(keys, [2]int{k, int(off)})
 		}
 	}
-	w.slots[1] = &slot{ov: index.OverlayFor(b.Finish()), live: live, used: true}
+	// OverlayFor: one empty base layer; OverlayForN (as after building a new index while
+	// commits are pending): several empty layers
+	nl := 1
+	ov := index.OverlayFor(b.Finish())
+	if rnd.Intn(5) == 0 {
+		nl = 1 + rnd.Intn(3)
+		bt, _, _ := ov.VerifParts()
+		ov = index.OverlayForN(bt, nl)
+	}
+	w.slots[1] = &slot{ov: ov, live: live, used: true}
 	w.cur = 1
-	w.emit("Build", "ov", 1, "keys", keys)
+	w.emit("Build", "ov", 1, "keys", keys, "nl", nl)
 	return w
 }
 
